@@ -174,7 +174,7 @@ theorem withFileName_safe (p : Path) {n : Bytes} (h : SafeName n) : withFileName
 theorem planEntry_some {T : Tables} {o : Opts} {vmap : List VEntry} {e : Entry} {r : Ren}
     (h : planEntry T o vmap e = some r) :
     r.path = e.1 ∧ r.kind = kindOf e.2 ∧
-    ¬ (e.2 = .dir ∧ o.renameDirs = false) ∧ ¬ (e.2 = .file ∧ o.renameFiles = false) ∧
+    ¬ (e.2 = .dir ∧ o.renameDirs = false) ∧ ¬ (e.2 ≠ .dir ∧ o.renameFiles = false) ∧
     ∃ name n, e.1.getLast? = some name ∧ newNameFor T o vmap name = some n ∧
       r.newPath = withFileName e.1 n := by
   unfold planEntry at h
@@ -196,13 +196,13 @@ theorem planEntry_some {T : Tables} {o : Opts} {vmap : List VEntry} {e : Entry} 
           · intro ⟨ha, hb⟩; apply h2; simp [ha, hb]
 
 theorem planEntry_of {T : Tables} {o : Opts} {vmap : List VEntry} {e : Entry} {name n : Bytes}
-    (h1 : ¬ (e.2 = .dir ∧ o.renameDirs = false)) (h2 : ¬ (e.2 = .file ∧ o.renameFiles = false))
+    (h1 : ¬ (e.2 = .dir ∧ o.renameDirs = false)) (h2 : ¬ (e.2 ≠ .dir ∧ o.renameFiles = false))
     (hname : e.1.getLast? = some name) (hn : newNameFor T o vmap name = some n) :
     planEntry T o vmap e = some { path := e.1, newPath := withFileName e.1 n, kind := kindOf e.2 } := by
   unfold planEntry
   have c1 : (e.2 == EKind.dir && !o.renameDirs) = false := by
     cases hk : e.2 <;> cases hd : o.renameDirs <;> simp_all
-  have c2 : (e.2 == EKind.file && !o.renameFiles) = false := by
+  have c2 : (e.2 != EKind.dir && !o.renameFiles) = false := by
     cases hk : e.2 <;> cases hd : o.renameFiles <;> simp_all
   simp [c1, c2, hname, hn]
 
@@ -448,8 +448,8 @@ theorem dedupRens_cover : ∀ (rs : List Ren) (r : Ren), r ∈ rs → ∃ r' ∈
       · exact ⟨r', List.mem_cons_of_mem _ (List.mem_filter.2 ⟨hr', by simpa using hx⟩), hp⟩
 
 theorem mem_filterRoots {cn : Path → Path} {roots : List Path} {b : Bool} {rs : List Ren} {r : Ren}
-    (h : r ∈ filterRoots cn roots b rs) : r ∈ rs ∧ (b = false → ∀ root ∈ roots, r.path ≠ root) := by
-  unfold filterRoots at h
+    (h : r ∈ filterRootsBy cn roots b rs) : r ∈ rs ∧ (b = false → ∀ root ∈ roots, r.path ≠ root) := by
+  unfold filterRootsBy at h
   cases b with
   | true =>
     simp only [if_true] at h
@@ -465,8 +465,8 @@ theorem mem_filterRoots {cn : Path → Path} {roots : List Path} {b : Bool} {rs 
 
 theorem filterRoots_distinct {cn : Path → Path} {roots : List Path} {b : Bool} {rs : List Ren}
     (h : rs.Pairwise (fun a b => a.path ≠ b.path)) :
-    (filterRoots cn roots b rs).Pairwise (fun a b => a.path ≠ b.path) := by
-  unfold filterRoots
+    (filterRootsBy cn roots b rs).Pairwise (fun a b => a.path ≠ b.path) := by
+  unfold filterRootsBy
   cases b with
   | true =>
     simp only [if_true]
